@@ -298,29 +298,29 @@ func extractVocab(dir string) *Vocab {
 // builtinVocab is the grammar of the reader as of the pinned tree (used only if the source is unreadable).
 func builtinVocab() *Vocab {
 	ch := map[string][]string{
-		"document": {"body"},
-		"body":     {"p", "tbl", "sectPr"},
-		"p":        {"pPr", "r"},
-		"pPr":      {"pStyle", "spacing", "jc", "ind", "numPr", "sectPr"},
-		"numPr":    {"ilvl", "numId"},
-		"r":        {"rPr", "t", "drawing"},
-		"rPr":      {"b", "bCs", "i", "iCs", "u", "strike", "sz", "szCs", "color", "highlight", "rFonts"},
-		"tbl":      {"tblPr", "tblGrid", "tr"},
-		"tblPr":    {"tblW", "jc", "tblLook", "tblStyle", "tblBorders", "shd", "tblCellMar", "tblLayout", "tblInd"},
-		"tblGrid":  {"gridCol"},
-		"tr":       {"trPr", "tc"},
-		"trPr":     {"trHeight", "cantSplit", "tblHeader"},
-		"tc":       {"tcPr", "p"},
-		"tcPr":     {"tcW", "vAlign", "gridSpan", "vMerge", "textDirection", "shd", "tcBorders", "tcMar", "noWrap", "hideMark"},
-		"tblBorders": {"top", "left", "bottom", "right", "insideH", "insideV"},
-		"tcBorders":  {"top", "left", "bottom", "right", "insideH", "insideV", "tl2br", "tr2bl"},
-		"tblCellMar": {"top", "left", "bottom", "right"},
-		"tcMar":      {"top", "left", "bottom", "right"},
-		"sectPr":     {"pgSz", "pgMar", "cols", "docGrid", "headerReference", "footerReference"},
-		"drawing":    {"inline", "anchor"},
-		"inline":     {"extent", "docPr", "graphic"},
-		"anchor":     {"simplePos", "positionH", "positionV", "extent", "effectExtent", "wrapNone", "wrapSquare", "wrapTight", "wrapTopAndBottom", "docPr", "cNvGraphicFramePr", "graphic"},
-		"graphic":    {"graphicData"},
+		"document":    {"body"},
+		"body":        {"p", "tbl", "sectPr"},
+		"p":           {"pPr", "r"},
+		"pPr":         {"pStyle", "spacing", "jc", "ind", "numPr", "sectPr"},
+		"numPr":       {"ilvl", "numId"},
+		"r":           {"rPr", "t", "drawing"},
+		"rPr":         {"b", "bCs", "i", "iCs", "u", "strike", "sz", "szCs", "color", "highlight", "rFonts"},
+		"tbl":         {"tblPr", "tblGrid", "tr"},
+		"tblPr":       {"tblW", "jc", "tblLook", "tblStyle", "tblBorders", "shd", "tblCellMar", "tblLayout", "tblInd"},
+		"tblGrid":     {"gridCol"},
+		"tr":          {"trPr", "tc"},
+		"trPr":        {"trHeight", "cantSplit", "tblHeader"},
+		"tc":          {"tcPr", "p"},
+		"tcPr":        {"tcW", "vAlign", "gridSpan", "vMerge", "textDirection", "shd", "tcBorders", "tcMar", "noWrap", "hideMark"},
+		"tblBorders":  {"top", "left", "bottom", "right", "insideH", "insideV"},
+		"tcBorders":   {"top", "left", "bottom", "right", "insideH", "insideV", "tl2br", "tr2bl"},
+		"tblCellMar":  {"top", "left", "bottom", "right"},
+		"tcMar":       {"top", "left", "bottom", "right"},
+		"sectPr":      {"pgSz", "pgMar", "cols", "docGrid", "headerReference", "footerReference"},
+		"drawing":     {"inline", "anchor"},
+		"inline":      {"extent", "docPr", "graphic"},
+		"anchor":      {"simplePos", "positionH", "positionV", "extent", "effectExtent", "wrapNone", "wrapSquare", "wrapTight", "wrapTopAndBottom", "docPr", "cNvGraphicFramePr", "graphic"},
+		"graphic":     {"graphicData"},
 		"graphicData": {"pic"},
 		"pic":         {"nvPicPr", "blipFill", "spPr"},
 		"nvPicPr":     {"cNvPr", "cNvPicPr"},
